@@ -1,5 +1,8 @@
-CONSTANTS Carriers = {"vps", "p1", "p2"} Vals = {"a", "b", "u"} WssWords = {"x", "y", "bad"} MaxRecv = 5 UnknownOnce = TRUE XdsGuard = TRUE Calls = {}
+CONSTANTS Carriers = {"vps", "p1", "p2"} Vals = {"a", "b", "u"} Labels = {"p", "q"} Times = {"t", "s"} Bads = {"bad"}
+  WssWords = {"x", "y", "bad"} MaxRecv = 5 UnknownOnce = TRUE XdsGuard = TRUE Calls = {}
+  Handlers = {"h1"} InitMasks = {{"NETWORK", "NETWORK_ID", "PROG_ID", "LOCAL_TIME", "ASPECT", "TTX_PAGE", "CAPTION"}} RegMasks = {} Apis = {"reg"} MaxReg = 0
 SPECIFICATION GSpec
 VIEW gview
-CONSTRAINT Dump
+INVARIANTS Dump TypeOK Faithful
+PROPERTIES OfThisReception OnlyAfterRepeat VpsLabelTwice NetworkMeansChange OneNetworkEvent NotAgainWhileSame StationKept CacheKept CacheDropped Gated WssOnlyAfterRepeats AspectRevertOnlyOnChange
 CHECK_DEADLOCK FALSE
